@@ -114,6 +114,41 @@ def gen(ctx):
     except Exception as ex:
         ctx.broken.append(("trace:normal-form", repr(ex)))
         ctx.obligations["trace:normal-form"] = False
+    # ---- the search brackets as functions of mu (variables: 0 = mu, 1 = h with h^3 = mu/3), both branches of the min() -----
+    try:
+        for k, cls in classes.items():
+            for tag, muv in (("small", 1e-10), ("large", 0.0121505856)):
+                T.reset()
+                mu = T.Sym.var("mu", muv)
+                a, b = T.retarget(cls._position_search_interval.fget)(types.SimpleNamespace(mu=mu))
+                a, b = T.Sym.lift(a), T.Sym.lift(b)
+                atoms = []
+
+                def walk(x):
+                    if isinstance(x, T.Sym):
+                        if x.op == "cbrt" and x not in atoms:
+                            atoms.append(x)
+                        for y in x.args:
+                            walk(y)
+                walk(a)
+                walk(b)
+                for _op, _x, _y, _o in T.CTX.path:
+                    walk(_x)
+                    walk(_y)
+                if len(atoms) > 1:
+                    raise ValueError("more than one cube-root atom in a bracket")
+                vi = {"mu": 0}
+                for at in atoms:
+                    vi[("cbrt", id(at))] = 1
+                txt += "def bracket%d_%s : List RE := [%s, %s]\n" % (k, tag, E.re_term(a, vi), E.re_term(b, vi))
+                if atoms:
+                    txt += "def bracket%d_%s_cube : RE := %s   -- (var 1)^3 equals this\n" % (k, tag, E.re_term(atoms[0].args[0], vi))
+                conds = [(op, E.re_term(x, vi), E.re_term(y, vi), o) for op, x, y, o in T.CTX.path]
+                txt += "def bracket%d_%s_path : List (String × RE × RE × Bool) := [%s]\n" % (
+                    k, tag, ", ".join('("%s", %s, %s, %s)' % (op, x, y, str(o).lower()) for op, x, y, o in conds))
+    except Exception as ex:
+        ctx.broken.append(("trace:brackets", repr(ex)))
+        ctx.obligations["trace:brackets"] = False
     # ---- catalogue: every primary/secondary pair with its live brackets ------------------------------------
     try:
         rows = catalogue_rows()
